@@ -2172,7 +2172,8 @@ def cqm_to_bqm(cqm: ConstrainedQuadraticModel, lagrange_multiplier: typing.Optio
                                  f"variable {v} has a lower bound of {cqm.lower_bound(v)}")
             v_bqm = integers[v] = binary_encoding(v, int(cqm.upper_bound(v)))
 
-            if not v_bqm.variables.isdisjoint(bqm.variables):
+            if not (v_bqm.variables.isdisjoint(bqm.variables)
+                    and v_bqm.variables.isdisjoint(cqm.variables)):
                 # this should be pretty unusual, so let's not bend over backwards
                 # to accommodate it.
                 raise ValueError("given CQM has conflicting variables with ones "
